@@ -49,7 +49,7 @@ def plan(tier, seed):
 def floors(tier):
     return {'evaluations': 5000, 'distinct_nontrivial': 1500, 'structure_compared': 5000,
             'histkeys:slot': 40, 'hist:vocab:custom': 2000, 'hist:vocab:default': 1000,
-            'k3_witness_checked': 1}
+            'k3_witness_checked': 1, 'new_style_verbatim_env_documents': 100}
 
 
 def setup(rec):
@@ -192,6 +192,8 @@ def check_case(case, rec):
     except D.Redraw:
         return
     rec.monitor('structure_compared')
+    if '\\begin{vcode}' in src:
+        rec.monitor('new_style_verbatim_env_documents')
     mm, exp = evaluate(ast, src, vocab, db)
     ks = kinds_in(exp)
     if len(ks) >= 3:
